@@ -44,7 +44,7 @@ def run_cap(chk, prog, fns, rule="B1", noreturn=("libast_fatal_error",), kinds=N
             loc = o.fn.loc(o.node)
             if o.ok:
                 chk.ob(rule, fn.name, site, True, loc=loc, proof="entailed by the path condition on every explored path (Fourier-Motzkin)")
-            elif o.undecided and strict and o.kind in ("lower", "upper", "count", "null"):
+            elif o.undecided and strict and o.kind in ("lower", "upper", "count", "null", "slice"):
                 # strict scope: every bound of these functions is proven on the reviewed tree, so a bound that can no
                 # longer be established is reported
                 chk.ob(rule, fn.name, site, False, loc=loc,
